@@ -45,6 +45,17 @@ def corpus():
                          ("msg", 1, obj(method="fetch", params=obj(id=1), id=2)),
                          ("msg", 0, obj(method="passwd", params=obj(user="alice", password="new1"), id=4)),
                          ("quiesce",), ("eof", 0), ("eof", 1), ("quiesce",)], users=users, name="c15-auth"))
+    # more fetches on one state than the initial fetcher table holds (growth), both orders: fetch after add and add after fetches
+    st = [("connect", 0, "raw", "local6"), ("connect", 1, "raw", "remote6"), ("connect", 2, "ws", "remote6"),
+          ("msg", 0, obj(method="add", params=obj(path="grow", value=1), id=1))]
+    for i in range(6):
+        st.append(("msg", 1 + (i % 2), obj(method="fetch", params=obj(id="g%d" % i, path=obj(startsWith="gr")), id=10 + i)))
+    st += [("msg", 0, obj(method="add", params=obj(path="grow2", value=2), id=2)),
+           ("msg", 0, obj(method="change", params=obj(path="grow", value=3), id=3)),
+           ("msg", 1, obj(method="unfetch", params=obj(id="g0"), id=30)),
+           ("msg", 0, obj(method="remove", params=obj(path="grow2"), id=4)),
+           ("quiesce",), ("eof", 1), ("eof", 0), ("eof", 2), ("quiesce",)]
+    out.append(Scenario(st, name="c15-fetcher-table-growth"))
     for sc in directed.regressions():
         if sc.variant == "default" and not any(st[0] == "raw" for st in sc.steps):
             sc.name = "c15-" + sc.name
@@ -153,24 +164,25 @@ def one(job):
     # at most one response per request id and step
     itr = D.ImplTrace(sc2, log, [0] * len(pre) + smap if not extra else None) if not extra else None
     if itr is not None:
+        # over the whole run a request id of a connection is answered at most as often as it was used (a second, late answer —
+        # timeout or shutdown for a request that already got its error — is a violation)
+        want = collections.Counter()
+        seen = collections.Counter()
         for si in range(len(sc2.steps)):
-            seen = collections.Counter()
-            want = collections.Counter()
             for c, top in M.step_requests(sc2.steps[si], itr.replies, si):
                 if top is None:
                     continue
                 rs, _ = M.flatten_requests(top)
                 for r in rs:
-                    if M.is_id(D.cget(r, b"id")):
+                    if M.is_id(D.cget(r, b"id")) and D.cget(r, b"method") is not None:
                         want[(c, repr(D.cget(r, b"id")))] += 1
             for d, ok, v in M.step_sends({"itr": itr}, si):
-                if not (isinstance(v, tuple) and v and v[0] == "unparsable") and M.is_response(v) and sc2.steps[si][0] in ("msg", "batch"):
-                    key = (d, repr(D.cget(v, b"id")))
-                    if key in want:
-                        seen[key] += 1
-            for key, n in seen.items():
-                if n > want[key]:
-                    fails.append("step %d: request id %s of c%d got %d responses" % (si, key[1], key[0], n))
+                if not (isinstance(v, tuple) and v and v[0] == "unparsable") and M.is_response(v) and M.is_id(D.cget(v, b"id")):
+                    # (a response that lost its id member because the member could not be attached is F60's business)
+                    seen[(d, repr(D.cget(v, b"id")))] += 1
+        for key, n in seen.items():
+            if n > want.get(key, 0):
+                fails.append("request id %s of c%d got %d responses for %d requests" % (key[1], key[0], n, want.get(key, 0)))
     site = []
     sites = []
     import re
